@@ -29,9 +29,13 @@ IsEvent(e) == l <= NLog /\ Ev.e = e /\ l' = l + 1
 
 \* observed value equals model value (blocks have no observable identity)
 ValEq(o, m) == o[1] = m[1] /\ (o[1] = "B" \/ o[2] = m[2])
+\* exceptions: the program's own throw (code 5) is distinguished from runtime errors
+\* (uninitialized variable, arithmetic on a block, call of a number, wrong number of arguments);
+\* which runtime error it is depends on message texts and is not compared
+ExcEq(o, m) == o[1] = "E" /\ m[1] = "E" /\ ((o[2] = C!EUser) = (m[2] = C!EUser))
 
 MainOK(run) ==
-    CASE run.ctl = "exc" -> Ev.main = run.val
+    CASE run.ctl = "exc" -> ExcEq(Ev.main, run.val)
       [] run.ctl = "ret" -> ValEq(Ev.main, run.val)
       [] run.ctl = "obs" -> /\ Ev.main = <<"O", Len(run.val)>>
                             /\ Len(Ev.obs) = Len(run.val)
@@ -49,7 +53,7 @@ PostOK(run, i, sh) ==
              r == C!PostCall(run, bv[2], args, sh)
          IN IF r.ctl = "undef" THEN TRUE                   \* outside the model from here on
             ELSE /\ (r.ctl = "norm" => ValEq(pc[3], r.val))
-                 /\ (r.ctl = "exc" => pc[3] = r.val)
+                 /\ (r.ctl = "exc" => ExcEq(pc[3], r.val))
                  /\ r.ctl \in {"norm", "exc"}
                  /\ PostOK(run, i + 1, r.sh)
 
